@@ -386,7 +386,9 @@ def gen_fd(draw, tier="quick"):
         "sampling": draw(st.sampled_from(["auto", "auto", "mcmc"])),
         "mean_u": draw(_mean_u()),
         "pos": draw(_points(dim, spec["len_scale"], n_max=3, mag=(1e-2, 30.0))),
-        "variant": draw(st.sampled_from(["points", "points", "structured"])),
+        "variant": draw(st.sampled_from(["points", "points", "structured", "points_per_offset", "points_per_offset"])),
+        # evaluation far from the origin (projected map coordinates): a stencil step is then tiny relative to the coordinates
+        "pos_offset": draw(st.sampled_from([0.0, 0.0, 1e2, -3e2, 1e3])),
     }
     r = draw(st.sampled_from([None, None, None, "dim", "len_scale", "mode_no"]))
     if r == "dim" and (spec["cls"] in ("JBessel", "SuperSpherical", "TPLSimple") or gens.max_valid_dim(spec["cls"]) < 3):
@@ -415,6 +417,21 @@ def _fd_jacobian(srf, x0, h, variant, tags):
             idx = [2] * dim
             idx[j] = 2 + m
             return f[(slice(None),) + tuple(idx)], axes[j][2 + m]
+
+    elif variant == "points_per_offset":
+        # one request per stencil offset on the same object: dim points each, every request differs from the previous one by a few h only
+        fm = {}
+        for m in offs:
+            pm = np.repeat(x0[:, None], dim, axis=1)
+            for j in range(dim):
+                pm[j, j] = x0[j] + m * h
+            fv = np.asarray(lib(srf, pm, _what="SRF call", _tags=tags), dtype=float)
+            require(fv.shape == (dim, dim), f"vector field has shape {fv.shape}", dict(tags, kind="shape"))
+            fm[m] = (fv, pm)
+        f = np.concatenate([fm[m][0] for m in offs], axis=1)
+
+        def val(j, m):
+            return fm[m][0][:, j], fm[m][1][j, j]
 
     else:
         pts = np.repeat(x0[:, None], 4 * dim, axis=1)
@@ -452,7 +469,9 @@ def check_fd(case, rec):
         rec.label("rotated_isotropic")
     if case.get("reuse"):
         rec.label("reused_after_inplace_" + case["reuse"])
-    pos = np.array(case["pos"], dtype=float).reshape(dim, -1)
+    pos = np.array(case["pos"], dtype=float).reshape(dim, -1) + float(case.get("pos_offset", 0.0)) * float(spec["len_scale"])
+    if case.get("pos_offset"):
+        rec.label("far_from_origin")
     srf = _srf(case, tags)
     require(bool(srf.model.is_isotropic), "generated model is not isotropic", dict(tags, kind="harness_isotropy"))
     # step from the largest wave number actually drawn (only the step size and the
